@@ -300,15 +300,32 @@ def parse_items(ct, payload, tls13):
     return [('hs', False)]
 
 
-class SendLog(object):
-    """observes (never alters) the records an endpoint sends: wraps _recordLayer.sendRecord"""
+class PeerStops(Exception):
+    """raised inside the (deviating) peer after it has sent its scripted alert"""
 
-    def __init__(self, conn):
+
+class SendLog(object):
+    """observes the records an endpoint (the PEER) sends: wraps _recordLayer.sendRecord.
+    inject=(n, level, desc): instead of its n-th record the peer sends that alert and stops."""
+
+    def __init__(self, conn, inject=None):
         self.conn = conn
         self.records = []      # (contentType, payload)
+        self.injected = False
         inner = conn._recordLayer.sendRecord
 
         def wrapped(msg):
+            if inject is not None and not self.injected and len(self.records) == inject[0]:
+                self.injected = True
+                al = Alert().create(inject[2], inject[1])
+                self.records.append((al.contentType, bytes(al.write())))
+
+                def gen():
+                    for x in inner(al):
+                        yield x
+                    conn.sock.flush()
+                    raise PeerStops()
+                return gen()
             self.records.append((msg.contentType, bytes(msg.write())))
             return inner(msg)
         conn._recordLayer.sendRecord = wrapped
@@ -651,7 +668,7 @@ def run_hs_fault_case(case):
     A.ignoreAbruptClose = case['ign']
     A.closeSocket = case['csock']
     asock.rchunk, asock.schunk = case.get('rchunk'), case.get('schunk')
-    plog = SendLog(P)
+    plog = SendLog(P, inject=case.get('palert'))
     tls13 = fl['ver'] == 'tls13'
     if case.get('eager'):
         # the peer talks as early as it can: application data right after its handshake returns
@@ -681,6 +698,7 @@ def run_hs_fault_case(case):
     ra, rb = run_two(ag, pg, asock, psock, eager_b=bool(case.get('eager')))
     hs_closed, hs_sess = A.closed, sess_lit(A)
     sess_obj = A.session
+    sess_res = bool(sess_obj.resumable) if sess_obj is not None else None     # right after the handshake call
     triggered = asock.kill_info is not None
     if not triggered:
         asock.fault = None       # the index lies beyond this handshake's I/O: no fault in this case
@@ -716,9 +734,10 @@ def run_hs_fault_case(case):
     post.append(op_result_lit(r2, 'write'))
     events.append('UWrite [120;121]')
     expected = [hs_result_lit(ra)] + post
-    lit = '(%s, [%s], [%s], %s, %s, %s, %s)' % (
+    lit = '(%s, [%s], [%s], %s, %s, %s, %s, %s)' % (
         init_lit((case['ign'], case['csock']), tls13, split), ';'.join(events), ';'.join(expected),
-        'true' if hs_closed else 'false', hs_sess, 'true' if A.closed else 'false', sess_lit(A))
+        'true' if hs_closed else 'false', hs_sess, 'true' if A.closed else 'false', sess_lit(A),
+        'true' if asock.closed else 'false')
     # ---- the property itself (independent of the model)
     viol = []
     ca = classify(ra) if ra[0] == 'exc' else (ra[0],)
@@ -729,7 +748,7 @@ def run_hs_fault_case(case):
             viol.append(('fault-swallowed:handshake-complete:' + site,
                          'transport failed (%s) during the handshake but the handshake call returned normally '
                          '(closed=%r, socket closed=%r, session.resumable=%r)'
-                         % (asock.kill_info, hs_closed, asock.closed, sess_obj and sess_obj.resumable)))
+                         % (asock.kill_info, hs_closed, asock.closed, sess_res)))
         elif ra[0] == 'blocked':
             viol.append(('fault-hangs:' + site, 'transport failed but the handshake call neither raised nor returned'))
         elif ca[0] not in DOCUMENTED_FAULT and not (ca[0] == 'RemoteAlert' and peer_alert):
@@ -738,8 +757,21 @@ def run_hs_fault_case(case):
         if ra[0] != 'ok':
             if not hs_closed:
                 viol.append(('fault-not-closed:' + site, 'connection not closed after a transport failure in the handshake'))
-            if sess_obj is not None and sess_obj.resumable:
+            if sess_res:
                 viol.append(('fault-session-resumable:' + site, 'session left resumable after a mid-handshake transport failure'))
+    elif case.get('palert') and plog.injected:
+        al = case['palert']
+        if ra[0] == 'exc':
+            if ca != ('RemoteAlert', al[2]):
+                viol.append(('alert-not-surfaced:%s:%d' % (site, al[2]),
+                             'the peer sent alert (%d,%d) during the handshake; the call raised %r' % (al[1], al[2], ca)))
+            if not hs_closed:
+                viol.append(('alert-not-closed:' + site, 'connection not closed after an alert in the handshake'))
+            if sess_res and al[2] != 0:
+                viol.append(('resumable-after-alert-in-handshake:%s' % site,
+                             'session left resumable after alert (%d,%d) received during the handshake' % (al[1], al[2])))
+        elif ra[0] == 'blocked':
+            viol.append(('alert-hangs:' + site, 'handshake neither raised nor returned after the peer\'s alert'))
     else:
         if ra[0] != 'ok':
             viol.append(('nofault-handshake-failed:' + site, 'no fault triggered but the handshake failed: %r' % (ca,)))
@@ -750,7 +782,7 @@ def run_hs_fault_case(case):
     for r in (ra, r1, r2):
         if r[0] == 'exc' and classify(r)[0] not in loop.DOCUMENTED:
             viol.append(('undocumented-exception:%s:%s' % (classify(r)[1], site), 'undocumented exception %r' % (classify(r),)))
-    return dict(lit=lit, viol=viol, triggered=triggered, outcome=ca, step_kind=site,
+    return dict(lit=lit, viol=viol, triggered=triggered, outcome=ca, step_kind=site, n_peer_records=len(plog.records),
                 case=case, n_io=(asock.n_recv, asock.n_send), events=events, expected=expected)
 
 
